@@ -415,6 +415,13 @@ def run_C09(ctx):
     t.append(gen(ctx, b, "codecx", ["codec-gen", "-count", 400 if q else 20000, "-seed", ctx.seed]))
     ctx.exhaustive = True
     decide(ctx, b, "TraceCodec", CODEC_INVS, t)
+    # beyond the listed properties: every option sequence of length <= 2 (thorough 3) for BuildUnixFS
+    r = vlib.model_check(ctx, "Builder", "SPECIFICATION Spec\nCONSTANT MaxLen = %d\nINVARIANTS Inv_X_BuilderSane Export\nCHECK_DEADLOCK FALSE\n" % (2 if q else 3),
+                         name="Builder_options", want_cases=True, workers=1)
+    cf_ = ctx.path("bopt.jsonl")
+    open(cf_, "w").write("\n".join(r["cases"]) + "\n")
+    bt = [gen(ctx, b, "bopt", ["bopt-replay", "-cases", cf_])]
+    decide(ctx, b, "TraceCodec", ["Inv_NoPanic"], bt, extras=["Inv_X_Builder"])
 
 
 # ----------------------------------------------------------------------------
